@@ -322,6 +322,25 @@ def gen_item(g: Gen, kind: str, style: str, parent: dict, used: set, named: bool
             ann = rng.choice(ANNOTS)
         if style == "numpy" and ann is not None and rng.random() < 0.3:
             default = rng.choice(DEFAULTS)
+        extra: dict = {}
+        if style == "numpy" and rng.random() < 0.15:
+            # Numpydoc: parameters of the same type and description are documented together, `a, b : type`
+            more = []
+            for _ in range(rng.choice([1, 1, 2])):
+                cands = [p for p in parent.get("params", []) if p["name"] not in used]
+                if cands and rng.random() < 0.7:
+                    p = rng.choice(cands)
+                    more.append(p["star"] + p["name"] if rng.random() < 0.8 else p["name"])
+                    used.add(p["name"])
+                else:
+                    more.append(g.ident("x"))
+            extra["more_names"] = more
+        if style == "numpy" and ann is None and rng.random() < 0.1:
+            # Numpydoc: a fixed set of values in braces, the default first
+            extra["choices"] = rng.choice([["1", "2", "3"], ["True", "False"], ["0.5", "1.5"], ["None", "1"], ["-1", "0", "1"]])
+        if (ann is not None or "choices" in extra) and default is None and rng.random() < 0.2:
+            extra["optional"] = True              # `x : int, optional`  /  `x (int, optional): ...`
+        return {"name": name, "ann": ann, "default": default, "desc": None, **extra}
     elif kind == "attributes":
         cands = [a for a in parent.get("attrs", []) if a["name"] not in used]
         if cands and rng.random() < 0.7:
@@ -474,7 +493,7 @@ def google_item_head(kind: str, it: dict, named: bool) -> str | None:
     """Text before the colon of a Google item, None when the item is a bare description."""
     name, ann = it["name"], it["ann"]
     if kind in ("parameters", "other parameters", "attributes"):
-        return name if ann is None else f"{name} ({ann})"
+        return name if ann is None else f"{name} ({ann}{', optional' if it.get('optional') else ''})"
     if kind in ("functions", "classes"):
         return ann if ann is not None else name
     if kind == "modules":
@@ -528,10 +547,14 @@ def render_google(doc: dict) -> list[str]:
 def numpy_item_head(kind: str, it: dict) -> str:
     name, ann = it["name"], it["ann"]
     if kind in ("parameters", "other parameters"):
+        names = ", ".join([name, *it.get("more_names", [])])
+        opt_ = ", optional" if it.get("optional") else ""
+        if "choices" in it:
+            return f"{names} : {{{', '.join(it['choices'])}}}{opt_}"
         if ann is None:
-            return name
+            return names
         d = "" if it["default"] is None else f", default{it['default_form']}{it['default']}"
-        return f"{name} : {ann}{d}"
+        return f"{names} : {ann}{d}{opt_}"
     if kind == "attributes":
         return name if ann is None else f"{name} : {ann}"
     if kind in ("functions", "classes"):
@@ -623,6 +646,18 @@ def fallback_annotation(kind: str, parent: dict, n_items: int, index: int):
     return None
 
 
+def parent_default(p):
+    return None if p is None else ("()" if p["star"] == "*" else "{}" if p["star"] == "**" else p["default"])
+
+
+def choices_annotation(choices: list[str], parent_obj) -> str:
+    """Annotation text of a Numpydoc choices item `{a, b, c}`: the text between the braces, modulo annotation parsing
+    (C03's subject: with a parent to resolve names in, the text is parsed and printed back as a tuple expression)."""
+    from _griffe.docstrings.utils import parse_docstring_annotation
+    import griffe
+    return str(parse_docstring_annotation(", ".join(choices), griffe.Docstring("", parent=parent_obj)))
+
+
 def fallback_arity(kind: str, parent: dict) -> int:
     """How many separately documented items the parent's annotation can serve (tuple length; unbounded otherwise)."""
     ret = parent.get("ret")
@@ -645,7 +680,7 @@ def fallback_documented(kind: str, parent: dict) -> bool:
     return (kind == "returns" and ret[0] in ("name", "tuple")) or (kind == "yields" and ret[0] in ("gen", "iter")) or (kind == "receives" and ret[0] == "gen")
 
 
-def expected_sections(doc: dict, opts: dict) -> list:
+def expected_sections(doc: dict, opts: dict, parent_obj=None) -> list:
     style, parent = doc["style"], doc["parent"]
     out = []
     for si, sec in enumerate(doc["sections"]):
@@ -682,12 +717,19 @@ def expected_sections(doc: dict, opts: dict) -> list:
                 name, ann = it["name"], it["ann"]
                 e: dict = {}
                 if k in ("parameters", "other parameters"):
-                    p = parent_param(parent, name)
-                    e["name"] = name
-                    e["annotation"] = ann if ann is not None else (p["ann"] if p else None)
-                    default = it["default"] if it["default"] is not None else (None if p is None else ("()" if p["star"] == "*" else "{}" if p["star"] == "**" else p["default"]))
-                    if default is not None:
-                        e["value"] = default
+                    written_default = it["default"]
+                    if "choices" in it:
+                        # the set of allowed values is the annotation (as parse_docstring_annotation prints it), the first one the default
+                        ann, written_default = choices_annotation(it["choices"], parent_obj), it["choices"][0]
+                    for nm in [name, *it.get("more_names", [])]:
+                        p = parent_param(parent, nm)
+                        e = {"name": nm, "annotation": ann if ann is not None else (p["ann"] if p else None)}
+                        default = written_default if written_default is not None else parent_default(p)
+                        e["description"] = desc
+                        if default is not None:
+                            e["value"] = default
+                        items.append(e)
+                    continue
                 elif k == "attributes":
                     a = next((a for a in parent.get("attrs", []) if a["name"] == name), None)
                     e["name"] = name
@@ -745,7 +787,7 @@ def impl_sections(text: str, parent_obj, style: str, opts: dict) -> list:
 
 # ------------------------------------------------------------------ known findings: exact defective behaviour
 def adjust_known(doc: dict, exp: list, opts: dict) -> tuple[list, set]:
-    """Rewrite the expectation the way the still-known defects of the tree distort it (C13-F5, C13-F6; F1-F4 and F7 are repaired
+    """Rewrite the expectation the way the still-known defects of the tree distort it (C13-F5, C13-F6, C13-F9, C13-F10; F1-F4 and F7 are repaired
     and have no classifier any more).
 
     Returns (adjusted expectation, ids of the findings whose gap predicate holds somewhere in this document).
@@ -763,6 +805,35 @@ def adjust_known(doc: dict, exp: list, opts: dict) -> tuple[list, set]:
         ei += 1
     for sec, e in pairs:
         k = sec["k"]
+        if style == "google" and sec.get("single"):
+            # C13-F9: with *_multiple_items=False the block is cut again with str.splitlines(), so every character that
+            # splitlines (but not split("\n")) treats as a line boundary comes back as "\n"
+            for it, ee in zip(sec["items"], e["value"]):
+                cut = "\n".join(ee["description"].splitlines())
+                if cut != ee["description"]:
+                    ee["description"] = cut
+                    hit.add("C13-F9")
+        if style == "numpy" and k in ("parameters", "other parameters"):
+            # C13-F10: names documented together share the signature entry of the FIRST name the signature knows
+            ei2 = 0
+            for it in sec["items"]:
+                names = [it["name"], *it.get("more_names", [])]
+                ees = e["value"][ei2:ei2 + len(names)]
+                ei2 += len(names)
+                if len(names) > 1:
+                    first = next((parent_param(parent, nm) for nm in names if parent_param(parent, nm) is not None), None)
+                    for ee in ees:
+                        want = dict(ee)
+                        if it["ann"] is None and "choices" not in it:
+                            want["annotation"] = first["ann"] if first else None
+                        if it["default"] is None and "choices" not in it:
+                            want.pop("value", None)
+                            if parent_default(first) is not None:
+                                want["value"] = parent_default(first)
+                        if want != ee:
+                            ee.clear()
+                            ee.update(want)
+                            hit.add("C13-F10")
         if style == "numpy" and k in ("returns", "yields", "receives"):
             # C13-F5: a bare `name` line (documented as "just the name") matches only the last alternative of _RE_RETURNS: it is the type
             for it, ee in zip(sec["items"], e["value"]):
@@ -785,8 +856,9 @@ def gen_sphinx_doc(g: Gen) -> dict:
     rng = g.rng
     pk = rng.choice(["func", "func", "cls", "none", "mod"])
     parent = gen_parent(g, pk)
-    fields = []
-    used: set = set()
+    groups: list[tuple[dict, dict | None]] = []
+    used_p: set = set()
+    used_v: set = set()
 
     def desc():
         first = g.first_line()
@@ -796,52 +868,61 @@ def gen_sphinx_doc(g: Gen) -> dict:
                 rest.append("")
             rest.append(g.cont_line("sphinx"))
         return [first, *rest]
-    kinds = {"func": ["param", "param", "raises", "returns"], "cls": ["var", "var", "param"], "mod": ["var"],
+
+    def pick(cands: list, mine: set, other: set, prefix: str) -> str:
+        """A name to document: from the parent, or one already documented as the OTHER kind (a class docstring
+        documents `path` as constructor parameter and as attribute), or unknown to the parent."""
+        r = rng.random()
+        cross = sorted(other - mine)
+        if cands and r < 0.6:
+            name = rng.choice(cands)
+        elif cross and r < 0.85:
+            name = rng.choice(cross)
+        else:
+            name = g.ident(prefix)
+        mine.add(name)
+        return name
+    kinds = {"func": ["param", "param", "raises", "returns", "var"], "cls": ["var", "var", "param", "param"], "mod": ["var"],
              "none": ["param", "var", "raises", "returns"]}[pk]
     have_ret = False
     for _ in range(rng.choice([0, 1, 2, 3, 4, 6])):
         k = rng.choice(kinds)
         if k == "param":
-            cands = [p for p in parent.get("params", []) if p["name"] not in used and not p["star"]]
-            if cands and rng.random() < 0.7:
-                name = rng.choice(cands)["name"]
-            else:
-                name = g.ident("x")
-            used.add(name)
-            r = rng.random()
-            inline = rng.choice(["int", "str", "Foo", "a.B", "list[int]"]) if r < 0.25 else None
+            name = pick([p["name"] for p in parent.get("params", []) if p["name"] not in used_p and not p["star"]], used_p, used_v, "x")
+            inline = rng.choice(["int", "str", "Foo", "a.B", "list[int]"]) if rng.random() < 0.25 else None
             f = {"f": "param", "field": rng.choice(SPHINX_FIELDS["param"]), "name": name, "inline": inline, "desc": desc()}
             t = None
             if inline is None and rng.random() < 0.45:
                 t = {"f": "type", "name": name, "ann": rng.choice(ANNOTS)}
-            if t and rng.random() < 0.3:
-                fields += [t, f]
-            else:
-                fields += [f] + ([t] if t else [])
+            groups.append((f, t))
         elif k == "var":
-            cands = [a for a in parent.get("attrs", []) if a["name"] not in used]
-            if cands and rng.random() < 0.7:
-                name = rng.choice(cands)["name"]
-            else:
-                name = g.ident("v")
-            used.add(name)
+            name = pick([a["name"] for a in parent.get("attrs", []) if a["name"] not in used_v], used_v, used_p, "v")
             f = {"f": "var", "field": rng.choice(SPHINX_FIELDS["var"]), "name": name, "desc": desc()}
             t = {"f": "vartype", "name": name, "ann": rng.choice(ANNOTS)} if rng.random() < 0.45 else None
-            if t and rng.random() < 0.3:
-                fields += [t, f]
-            else:
-                fields += [f] + ([t] if t else [])
+            groups.append((f, t))
         elif k == "raises":
-            fields.append({"f": "raises", "field": rng.choice(SPHINX_FIELDS["raises"]), "exc": rng.choice(EXCEPTIONS), "desc": desc()})
+            groups.append(({"f": "raises", "field": rng.choice(SPHINX_FIELDS["raises"]), "exc": rng.choice(EXCEPTIONS), "desc": desc()}, None))
         elif k == "returns" and not have_ret:
             have_ret = True
             f = {"f": "returns", "field": rng.choice(SPHINX_FIELDS["returns"]), "desc": desc()}
             t = {"f": "rtype", "ann": rng.choice(ANNOTS)} if rng.random() < 0.5 else None
+            groups.append((f, t))
+    fields: list[dict] = []
+    if rng.random() < 0.7:
+        # a type field next to the field it belongs to, before or after it
+        for f, t in groups:
             if t and rng.random() < 0.3:
                 fields += [t, f]
             else:
                 fields += [f] + ([t] if t else [])
-    # related fields stay adjacent but the groups are shuffled: Sphinx imposes no order on fields
+    else:
+        # Sphinx imposes no order on fields: type fields anywhere in the list
+        fields = [f for f, _ in groups]
+        for _, t in groups:
+            if t:
+                fields.insert(rng.randint(0, len(fields)), t)
+    for f in fields[:-1]:
+        f["sep"] = rng.choice([0, 0, 0, 0, 0, 0, 1, 2])      # blank lines between fields
     return {"style": "sphinx", "parent": parent, "text": g.text_lines(fences=False), "fields": fields}
 
 
@@ -870,15 +951,18 @@ def render_sphinx(doc: dict) -> list[str]:
         else:
             out.append(head + " " + f["desc"][0])
             out += ["    " + l if l else "" for l in f["desc"][1:]]
+        out += [""] * f.get("sep", 0)
     return out
 
 
-def ws(s: str) -> str:
-    return " ".join(s.split())
+def sphinx_desc(f: dict) -> str:
+    """A Sphinx description comes back as its lines, each without its indentation, joined by single blanks (a blank
+    line inside it therefore shows as two blanks); blank lines after the field belong to nothing."""
+    return " ".join(l.lstrip(" ") for l in f["desc"])
 
 
 def expected_sphinx(doc: dict, defects: bool = False) -> tuple[list, set]:
-    """Sections in Sphinx's fixed order (text, parameters, attributes, returns, raises); descriptions whitespace-normalised.
+    """Sections in Sphinx's fixed order (text, parameters, attributes, returns, raises); descriptions exact (sphinx_desc).
 
     With defects=True the result is distorted the way finding C13-F8 does (a `:type:`/`:vartype:` field after its
     `:param:`/`:var:` is ignored when the parent already annotates the name)."""
@@ -896,7 +980,7 @@ def expected_sphinx(doc: dict, defects: bool = False) -> tuple[list, set]:
             rtype = f["ann"]
         pos[id(f)] = i
     for i, f in enumerate(doc["fields"]):
-        d = ws(" ".join(f["desc"])) if "desc" in f else None
+        d = sphinx_desc(f) if "desc" in f else None
         if f["f"] == "param":
             p = parent_param(parent, f["name"])
             sig = p["ann"] if p else None
@@ -943,14 +1027,6 @@ def expected_sphinx(doc: dict, defects: bool = False) -> tuple[list, set]:
     return out, hit
 
 
-def normalise_sphinx(secs: list) -> list:
-    for s in secs:
-        if isinstance(s["value"], list):
-            for e in s["value"]:
-                e["description"] = ws(e["description"])
-    return secs
-
-
 # ------------------------------------------------------------------ (T) tables regenerated from the source; pinned regex texts
 from pathlib import Path as _Path
 import ast as _ast
@@ -977,6 +1053,8 @@ PINNED_REGEX = {
         "_RE_DOCTEST_FLAGS": (r"(\s*#\s*doctest:.+)$", 0),
     },
 }
+# the default-value regex is written inline in numpy._read_parameters: its text must occur in the source
+PINNED_NUMPY_DEFAULT_REGEX = r"^(?P<annotation>.+),\s+default(?: |: |=)(?P<default>.+)$"
 PINNED_SPHINX = {
     "_PARAM_NAMES": {"param", "parameter", "arg", "argument", "key", "keyword"}, "_PARAM_TYPE_NAMES": {"type"},
     "_ATTRIBUTE_NAMES": {"var", "ivar", "cvar"}, "_ATTRIBUTE_TYPE_NAMES": {"vartype"}, "_RETURN_NAMES": {"returns", "return"},
@@ -1047,6 +1125,8 @@ def translate(ctx):
                 problems.append(f"{st}.{name} is missing")
             elif rx.pattern != pat or (rx.flags & ~re.UNICODE) != flags:
                 problems.append(f"{st}.{name} changed: {rx.pattern!r} flags={rx.flags}")
+    if ('re.match(r"' + PINNED_NUMPY_DEFAULT_REGEX + '", annotation)') not in (src / "docstrings" / "numpy.py").read_text():
+        problems.append("numpy._read_parameters: the default-value regex changed")
     sph = importlib.import_module("_griffe.docstrings.sphinx")
     for name, vals in PINNED_SPHINX.items():
         if set(getattr(sph, name, ())) != vals:
@@ -1120,7 +1200,7 @@ def wsecs_sexp(doc: dict):
                 return None
             items = []
             for it in sec["items"]:
-                if it.get("sep"):
+                if it.get("sep") or it.get("optional"):
                     return None
                 ann = it["ann"]
                 if k in ("functions", "classes") and ann is not None:
@@ -1144,7 +1224,7 @@ def model_shape(secs: list) -> list:
         elif k == "examples":
             out.append(["examples", _o(s.get("title")), [[1 if ck == "examples" else 0, t] for ck, t in v]])
         elif k == "deprecated":
-            out.append(["deprecated", v["annotation"], v["description"]])
+            out.append(["items", "deprecated", [], [[[], _o(v["annotation"]), v["description"], []]]])
         else:
             out.append(["items", k, _o(s.get("title")),
                         [[_o(e.get("name")), _o(e.get("annotation")), e["description"], _o(e.get("value"))] for e in v]])
@@ -1153,7 +1233,7 @@ def model_shape(secs: list) -> list:
 
 # ------------------------------------------------------------------ (O) the model's string functions vs CPython
 ALPHABET = list(" :()aB_-1,#op.>`<") + [" ", " ", ":", "\t"]
-PHRASES = [" or ", ", optional", "doctest:", "<BLANKLINE>", "):", " (", "```", ">>> ", "# doctest: +SKIP", "Note", "See also", "(int)", "x", "\x0c", "\x1c"]
+PHRASES = [" or ", ", optional", "doctest:", "<BLANKLINE>", "):", " (", "```", ">>> ", "# doctest: +SKIP", "Note", "See also", "(int)", "x", "\x0c", "\x1c", "\r", "\x0b", "\x1e", "\x1f"]
 
 
 def rand_string(rng, maxlen=14, nl=False) -> str:
@@ -1163,7 +1243,7 @@ def rand_string(rng, maxlen=14, nl=False) -> str:
         if r < 0.12:
             out.append(rng.choice(PHRASES))
         elif nl and r < 0.2:
-            out.append("\n")
+            out.append(rng.choice(["\n", "\n", "\r\n", "\n\r"]))
         else:
             out.append(rng.choice(ALPHABET))
     return "".join(out)
@@ -1230,6 +1310,28 @@ def py_string_oracle(name: str, args: list):
         else:
             a, d = None, s
         return [[], _o(a), "\n".join([d.lstrip()]).rstrip("\n")]
+    if name == "is_dash_line":
+        return int(bool(s.strip()) and not s.replace("-", "").strip())
+    if name == "re_parameter":
+        m = re.compile(*PINNED_REGEX["numpy"]["_RE_PARAMETER"]).match(s)
+        return [] if m is None else [[m.group("names"), _o(m.group("choices")), _o(m.group("type"))]]
+    if name == "re_returns":
+        m = re.compile(*PINNED_REGEX["numpy"]["_RE_RETURNS"]).match(s)
+        if m is None:
+            return []
+        gd = m.groupdict()
+        return [[_o(gd["nt_name"] or gd["name"]), _o(gd["nt_type"] or gd["type"])]]
+    if name == "find_default":
+        m = re.match(PINNED_NUMPY_DEFAULT_REGEX, s)
+        return [] if m is None else [[m.group("annotation"), m.group("default")]]
+    if name == "split_cs":
+        return s.split(", ")
+    if name == "dedent":
+        import textwrap
+        return textwrap.dedent(s)
+    if name == "n_adm_kind":
+        k = s.lower().replace(" ", "-")
+        return k[:-1] if k in ("warnings", "notes") else k
     if name == "startswith":
         return int(s.startswith(args[0]))
     if name == "endswith":
@@ -1237,6 +1339,26 @@ def py_string_oracle(name: str, args: list):
     if name == "removesuffix":
         return s.removesuffix(args[0])
     raise KeyError(name)
+
+
+NUMPY_ARG = ["is_dash_line", "re_parameter", "re_returns", "find_default", "split_cs", "n_adm_kind"]
+NUMPY_NL_ARG = ["dedent"]
+NP_ALPHABET = list(" :*{},=ab_1-x") + [" ", " ", ":", "\t", ","]
+NP_PHRASES = [", ", " : ", "default", ", default ", ", default: ", ", default=", ", optional", "**", "{a, b}", "---", "    ", "  ", "\t", "Notes",
+              "Warnings", "a, b", " :", ": ", "\x0c", "\r", "x", "Z9"]
+
+
+def rand_string_np(rng, maxlen=12, nl=False) -> str:
+    out = []
+    for _ in range(rng.randint(0, maxlen)):
+        r = rng.random()
+        if r < 0.3:
+            out.append(rng.choice(NP_PHRASES))
+        elif nl and r < 0.45:
+            out.append("\n")
+        else:
+            out.append(rng.choice(NP_ALPHABET))
+    return "".join(out)
 
 
 ONE_ARG = ["lstrip", "rstrip", "strip", "rstrip_nl", "lstrip_sp", "strip_parens", "remove_optional", "lower", "is_empty_line",
@@ -1258,11 +1380,14 @@ def check_string_oracle(ctx, n: int):
             s = rand_string(ctx.rng)
             p = rand_string(ctx.rng, 4) if ctx.rng.random() < 0.5 else (s[:ctx.rng.randint(0, len(s))] if ctx.rng.random() < 0.5 else s[ctx.rng.randint(0, len(s)):])
             cases.append((TWO_ARG[r - len(ONE_ARG) - len(NL_ARG)], [p, s]))
+    for i in range(n // 3):
+        if i % 7 == 6:
+            cases.append(("dedent", [rand_string_np(ctx.rng, 16, nl=True)]))
+        else:
+            cases.append((NUMPY_ARG[i % 7 % len(NUMPY_ARG)], [rand_string_np(ctx.rng)]))
     # the model's re_nad/unnamed return the description before the join/rstrip of the caller: lstrip only
     outs = ctx.model([["str", name, *args] for name, args in cases])
     for (name, args), mo in zip(cases, outs):
-        if name == "splitlines" and any(c in args[0] for c in "\x0c\x1c\r\x0b"):
-            continue                        # the model's splitlines knows "\n" only (printable text)
         py = py_string_oracle(name, args)
         if name in ("re_nad", "unnamed"):
             py = [py[0], py[1], py[2]]
@@ -1368,6 +1493,17 @@ def replay_witnesses(ctx):
     except Exception:  # noqa: BLE001
         ctx.witness("C13-F6", False)
     try:
+        s = impl_sections("Summary.\n\nReturns:\n    Page one\x0cpage two.\n", None, "google", {"returns_multiple_items": False})
+        ctx.witness("C13-F9", s[1]["value"][0]["description"] == "Page one\npage two.")
+    except Exception:  # noqa: BLE001
+        ctx.witness("C13-F9", False)
+    try:
+        m = griffe.visit("m", filepath=None, code="def f(a: int = 1, b: str = 'x'): ...\n")
+        s = impl_sections("Summary.\n\nParameters\n----------\na, b\n    Both.\n", m["f"], "numpy", {})
+        ctx.witness("C13-F10", s[1]["value"][1]["annotation"] == "int" and s[1]["value"][1]["value"] == "1")
+    except Exception:  # noqa: BLE001
+        ctx.witness("C13-F10", False)
+    try:
         m = griffe.visit("m", filepath=None, code="def f(a: int): ...\n")
         s = impl_sections("Summary.\n\n:param a: The a.\n:type a: str\n", m["f"], "sphinx", {})
         ctx.witness("C13-F8", s[1]["value"][0]["annotation"] == "int")
@@ -1469,10 +1605,21 @@ def perturb(rng, lines: list[str]) -> str:
     return "\n".join(lines)
 
 
-def explore_google(ctx, n: int, with_model: bool = True):
+def doc_lines(text: str) -> list[str]:
+    """The lines of a docstring as the parsers must see them: the cleaned text cut at "\n" and nowhere else
+    (computed here, not read from Docstring.lines, so that the model is fed by the specification of a line)."""
+    return inspect.cleandoc(text.rstrip()).split("\n")
+
+
+def model_ok(text: str) -> bool:
+    """The Coq model is over ASCII."""
+    return text.isascii()
+
+
+def explore_google(ctx, n: int, with_model: bool = True, exotic: float = 0.0):
     import griffe
     logging.disable(logging.CRITICAL)
-    g = Gen(ctx.rng)
+    g = Gen(ctx.rng, exotic)
     batch = []
     for _ in range(n):
         opts = random_opts(ctx.rng, "google")
@@ -1496,13 +1643,13 @@ def explore_google(ctx, n: int, with_model: bool = True):
         ctx.observe("google_indent", doc["indent"])
         for o, v in opts.items():
             ctx.observe("google_option", f"{o}={v}")
-        ctx.count("google_cases")
+        ctx.count("google_cases" if not exotic else "google_exotic_cases")
         results.append((opts, doc, lines, text, parent_obj, got, exp))
     if not with_model:
         return
     # (C) model parse vs implementation on the lines the parser sees
-    mc = [r for r in results if not r[0].get("ignore_init_summary") and not r[0].get("returns_type_in_property_summary")]
-    outs = ctx.model([["gparse", opts_sexp(o), ctx_sexp(d["parent"]), griffe.Docstring(t).lines] for o, d, l, t, p, got, exp in mc])
+    mc = [r for r in results if not r[0].get("ignore_init_summary") and not r[0].get("returns_type_in_property_summary") and model_ok(r[3])]
+    outs = ctx.model([["gparse", opts_sexp(o), ctx_sexp(d["parent"]), doc_lines(t)] for o, d, l, t, p, got, exp in mc])
     for (o, d, l, t, p, got, exp), mo in zip(mc, outs):
         impl = ["ok", model_shape(got)] if not (got and got[0] == "exception") else ["err", got[1]]
         ctx.count("google_model_vs_impl")
@@ -1511,7 +1658,7 @@ def explore_google(ctx, n: int, with_model: bool = True):
                             _case_json("google", o, d, t))
     # (C) render / expectation / theorem instances
     ws = [(r, wsecs_sexp(r[1])) for r in results]
-    ws = [(r, w) for r, w in ws if w is not None and not (set(r[0]) & {"ignore_init_summary", "returns_type_in_property_summary"})]
+    ws = [(r, w) for r, w in ws if w is not None and model_ok(r[3]) and not (set(r[0]) & {"ignore_init_summary", "returns_type_in_property_summary"})]
     m_render = ctx.model([["grender", r[1]["indent"], w] for r, w in ws])
     m_expect = ctx.model([["gexpect", ctx_sexp(r[1]["parent"]), w] for r, w in ws])
     m_wf = ctx.model([["gwf", ctx_sexp(r[1]["parent"]), w] for r, w in ws])
@@ -1535,14 +1682,14 @@ def explore_google(ctx, n: int, with_model: bool = True):
 
 def explore_google_perturbed(ctx, n: int):
     import griffe
-    g = Gen(ctx.rng)
+    g = Gen(ctx.rng, 0.03, ascii_only=True)
     cases = []
     for _ in range(n):
         opts = {o: v for o, v in random_opts(ctx.rng, "google").items() if o in GOOGLE_OPTS[:6]}
         doc = gen_doc(g, "google", opts)
         text = perturb(ctx.rng, render_google(doc))
         cases.append((opts, doc, text))
-    outs = ctx.model([["gparse", opts_sexp(o), ctx_sexp(d["parent"]), griffe.Docstring(t).lines] for o, d, t in cases])
+    outs = ctx.model([["gparse", opts_sexp(o), ctx_sexp(d["parent"]), doc_lines(t)] for o, d, t in cases])
     for (o, d, t), mo in zip(cases, outs):
         p = build_parent(d["parent"])
         got = _impl(t, p, "google", o)
@@ -1558,15 +1705,21 @@ def explore_google_perturbed(ctx, n: int):
                             {"model": mo2, "impl": impl}, _case_json("google", o, d, t))
 
 
-def explore_numpy(ctx, n: int):
-    g = Gen(ctx.rng)
+def nopts_sexp(opts: dict, parent: dict):
+    return [opt(opts, "trim_doctest_flags"), bool(opts.get("ignore_init_summary")) and parent["kind"] == "init"]
+
+
+def explore_numpy(ctx, n: int, exotic: float = 0.0, with_model: bool = True):
+    g = Gen(ctx.rng, exotic)
+    results = []
     for _ in range(n):
         opts = random_opts(ctx.rng, "numpy")
         doc = gen_doc(g, "numpy", opts)
         lines = render_numpy(doc)
         text = embed(lines, ctx.rng)
-        got = _impl(text, build_parent(doc["parent"]), "numpy", opts)
-        exp = expected_sections(doc, opts)
+        parent_obj = build_parent(doc["parent"])
+        got = _impl(text, parent_obj, "numpy", opts)
+        exp = expected_sections(doc, opts, parent_obj)
         adj, hit = adjust_known(doc, exp, opts)
         _direct(ctx, "numpy", opts, doc, text, got, exp, adj, hit)
         kinds = [s["k"] for s in doc["sections"]]
@@ -1574,7 +1727,69 @@ def explore_numpy(ctx, n: int):
         for k in kinds:
             ctx.observe("numpy_section", k)
         ctx.observe("numpy_parent", doc["parent"]["kind"])
-        ctx.count("numpy_cases")
+        ctx.count("numpy_cases" if not exotic else "numpy_exotic_cases")
+        results.append((opts, doc, lines, text, got, exp, hit, parent_obj))
+    if not with_model:
+        return
+    # (C) model parse_numpy vs implementation on the lines the parser sees (annotation texts modulo parse_docstring_annotation:
+    # the text of a choices item comes back printed as a tuple expression)
+    mc = [r for r in results if model_ok(r[3])]
+    outs = ctx.model([["nparse", nopts_sexp(o, d["parent"]), ctx_sexp(d["parent"]), doc_lines(t)] for o, d, l, t, got, exp, hit, po in mc])
+    for (o, d, l, t, got, exp, hit, po), mo in zip(mc, outs):
+        impl = ["ok", _norm_ann_secs(model_shape(got), po)] if not (got and got[0] == "exception") else ["err", got[1]]
+        mo = ["ok", _norm_ann_secs(mo[1], po)] if mo[0] == "ok" else mo
+        ctx.count("numpy_model_vs_impl")
+        if mo != impl:
+            ctx.tie_failure("correspondence", "parse_numpy(model) vs Docstring.parse('numpy')", {"model": mo, "impl": impl},
+                            _case_json("numpy", o, d, t))
+
+
+def perturb_numpy(rng, lines: list[str]) -> str:
+    """Numpy-specific damage on top of the generic one: dash lines, item heads, several names, choices, defaults."""
+    lines = list(lines)
+    for _ in range(rng.randint(0, 2)):
+        if not lines:
+            break
+        i = rng.randrange(len(lines))
+        l = lines[i]
+        r = rng.random()
+        if r < 0.15 and l.startswith("-"):
+            lines[i] = rng.choice(["-", "--", l + "-", " " + l, l + " ", "- -", "=" * len(l), l[:-1] + " -"])
+        elif r < 0.25:
+            lines.insert(i, rng.choice(["----", "-", "  ---", "Notes", "Warnings", "See Also", "returns", "Other Parameters"]))
+        elif r < 0.40 and l and not l.startswith(" "):
+            lines[i] = rng.choice([f"{l}, optional", f"a, {l}", f"a, *b, **c : int", f"{l} : {{'x', 'y'}}", f"x : {{a, b}}, optional",
+                                   f"{l}, default 3", f"{l},  default: None", f"{l}, default=x, default = y", f"{l} :", f": {l}", f" {l}",
+                                   f"*{l}", f"***{l}", f"{l} :  ", f"x:y", f"x :y", f"x: y", f"1x : int", f"x,y : int", f"x, 1 : int"])
+        elif r < 0.5 and l.startswith("    "):
+            lines[i] = rng.choice([l[1:], l[2:], "\t" + l[4:], l[4:], "        " + l[4:]])
+        elif r < 0.6:
+            lines[i] = l + rng.choice([" ", "  ", ":", " :"])
+    return perturb(rng, lines) if rng.random() < 0.7 else "\n".join(lines)
+
+
+def explore_numpy_perturbed(ctx, n: int):
+    g = Gen(ctx.rng, 0.03, ascii_only=True)
+    cases = []
+    for _ in range(n):
+        opts = random_opts(ctx.rng, "numpy")
+        doc = gen_doc(g, "numpy", opts)
+        text = perturb_numpy(ctx.rng, render_numpy(doc))
+        cases.append((opts, doc, text))
+    outs = ctx.model([["nparse", nopts_sexp(o, d["parent"]), ctx_sexp(d["parent"]), doc_lines(t)] for o, d, t in cases])
+    for (o, d, t), mo in zip(cases, outs):
+        p = build_parent(d["parent"])
+        got = _impl(t, p, "numpy", o)
+        ctx.count("numpy_perturbed_cases")
+        if got and got[0] == "exception":
+            impl = ["err", got[1]]
+        else:
+            impl = ["ok", _norm_ann_secs(model_shape(got), p)]
+        mo2 = ["ok", _norm_ann_secs(mo[1], p)] if mo[0] == "ok" else mo
+        ctx.observe("numpy_perturbed_outcome", impl[0])
+        if mo2 != impl:
+            ctx.tie_failure("correspondence", "parse_numpy(model) vs Docstring.parse('numpy') on a perturbed docstring",
+                            {"model": mo2, "impl": impl}, _case_json("numpy", o, d, t))
 
 
 def sfields_sexp(doc: dict):
@@ -1583,8 +1798,8 @@ def sfields_sexp(doc: dict):
     out = []
     for f in doc["fields"]:
         k = f["f"]
-        if "desc" in f and "" in f["desc"]:
-            return None                       # blank lines inside a description are not part of the Coq structure
+        if ("desc" in f and "" in f["desc"]) or f.get("sep"):
+            return None                       # blank lines inside / after a description are not part of the Coq structure
         if k == "param":
             out.append(["param", f["field"], _o(f["inline"]), f["name"], f["desc"][0], f["desc"][1:]])
         elif k == "var":
@@ -1629,9 +1844,9 @@ def perturb_sphinx(rng, lines: list[str]) -> str:
     return "\n".join(lines)
 
 
-def explore_sphinx(ctx, n: int, with_model: bool = True):
+def explore_sphinx(ctx, n: int, with_model: bool = True, exotic: float = 0.0):
     import griffe
-    g = Gen(ctx.rng)
+    g = Gen(ctx.rng, exotic)
     cases = []
     for i in range(n):
         opts = random_opts(ctx.rng, "sphinx")
@@ -1641,8 +1856,6 @@ def explore_sphinx(ctx, n: int, with_model: bool = True):
         parent_obj = build_parent(doc["parent"])
         raw = _impl(text, parent_obj, "sphinx", opts)
         got = raw
-        if isinstance(raw, list) and raw and isinstance(raw[0], dict):
-            got = normalise_sphinx(json.loads(json.dumps(raw)))
         exp, _ = expected_sphinx(doc)
         adj, hit = expected_sphinx(doc, defects=True)
         _direct(ctx, "sphinx", opts, doc, text, got, exp, adj, hit)
@@ -1650,7 +1863,7 @@ def explore_sphinx(ctx, n: int, with_model: bool = True):
         for f in doc["fields"]:
             ctx.observe("sphinx_field", f["f"])
         ctx.observe("sphinx_parent", doc["parent"]["kind"])
-        ctx.count("sphinx_cases")
+        ctx.count("sphinx_cases" if not exotic else "sphinx_exotic_cases")
         doc["_rendered"] = (text,)
         cases.append((opts, doc, text, parent_obj, raw))
         if with_model and i % 2 == 0:
@@ -1662,7 +1875,7 @@ def explore_sphinx(ctx, n: int, with_model: bool = True):
     spec = []
     for o, d, t, p, raw in cases:
         fs = sfields_sexp(d)
-        if fs is not None and t in d.get("_rendered", ()):
+        if fs is not None and t in d.get("_rendered", ()) and model_ok(t):
             spec.append((o, d, t, raw, fs))
     souts = ctx.model([["sspec", ctx_sexp(d["parent"]), d["parent"]["kind"] in ("func", "gen", "init", "prop"), d["text"], fs]
                        for o, d, t, raw, fs in spec])
@@ -1677,7 +1890,8 @@ def explore_sphinx(ctx, n: int, with_model: bool = True):
             if raw and raw[0] == "exception" or me != sphinx_shape(raw):
                 ctx.tie_failure("correspondence", "wf_sphinx document: implementation differs from expect_sphinx(model)",
                                 {"model_expect": me, "impl": raw}, case)
-    outs = ctx.model([["sparse", ctx_sexp(d["parent"]), d["parent"]["kind"] in ("func", "gen", "init", "prop"), griffe.Docstring(t).lines]
+    cases = [c for c in cases if model_ok(c[2])]
+    outs = ctx.model([["sparse", ctx_sexp(d["parent"]), d["parent"]["kind"] in ("func", "gen", "init", "prop"), doc_lines(t)]
                       for o, d, t, p, raw in cases])
     for (o, d, t, p, raw), mo in zip(cases, outs):
         impl = sphinx_shape(raw) if not (raw and raw[0] == "exception") else ["err", raw[1]]
@@ -1695,7 +1909,13 @@ def explore(ctx):
     explore_google(ctx, ctx.budget(1500, 15000))
     explore_google_perturbed(ctx, ctx.budget(700, 8000))
     explore_numpy(ctx, ctx.budget(900, 9000))
+    explore_numpy_perturbed(ctx, ctx.budget(700, 8000))
     explore_sphinx(ctx, ctx.budget(700, 7000))
+    # the same three streams over arbitrary text: descriptions / free text with characters outside printable ASCII
+    # (vertical tab, form feed, FS/GS/RS, lone CR, NEL, U+2028/2029, non-ASCII letters): a line ends at "\n" only
+    explore_google(ctx, ctx.budget(300, 3000), exotic=0.12)
+    explore_numpy(ctx, ctx.budget(300, 3000), exotic=0.12)
+    explore_sphinx(ctx, ctx.budget(300, 3000), exotic=0.12)
     if not ctx.quick:
         g = Gen(ctx.rng)
         sample = []
@@ -1709,8 +1929,11 @@ def search(ctx):
     """A tie broke and no failing input is known: evaluate the property on the implementation alone, wider."""
     logging.disable(logging.CRITICAL)
     explore_google(ctx, 4000, with_model=False)
-    explore_numpy(ctx, 2500)
+    explore_numpy(ctx, 2500, with_model=False)
     explore_sphinx(ctx, 2000, with_model=False)
+    explore_google(ctx, 1000, with_model=False, exotic=0.12)
+    explore_numpy(ctx, 1000, exotic=0.12, with_model=False)
+    explore_sphinx(ctx, 1000, with_model=False, exotic=0.12)
 
 
 def replay(ctx, data):
